@@ -76,12 +76,12 @@ CHECKS = {
    level="exploration", design="§3 C10",
    technique="deterministic simulation: the real UDP listener/engine/batch I/O over a simulated kernel (recvmmsg/sendmmsg emulated on the caller's mmsghdr arrays), whole chain and resolver over a simulated network; per-operation token in the question's letter case; seeded arrival bursts, kernel faults and yields",
    text="Seeded search over engine shapes, arrival patterns (bursts from clients that share addresses, IDs and names), packets that end without a reply, kernel faults (partial sendmmsg, errno on sendmmsg/recvmmsg at start or mid-run, poisoned destination, receive-buffer overflow, no raw descriptor) and seeded yields at send points. Every datagram the server sends must be attributable to exactly one operation by (destination address:port, ID, exact question bytes), must be exactly one DNS message, and its records must belong to the question (unique A per name). Sampling, not proof.",
-   note="Goroutine interleaving is the Go scheduler's at GOMAXPROCS=1 for the seeded arrival pattern and yields (select choice and equal-deadline timer order are seeded through a runtime overlay); it is not chosen at lock granularity. UDP only: TCP/TLS/DoH/DoQ stream ordering is not covered."),
+   note="Goroutine interleaving is the Go scheduler's at GOMAXPROCS=1 for the seeded arrival pattern and yields (select choice and equal-deadline timer order are seeded through a runtime overlay); it is not chosen at lock granularity. Owned UDP and TCP listeners are simulated; TLS/DoH/DoQ are not."),
  "C11": dict(
    level="exploration", design="§3 C11",
    technique="deterministic simulation: same W-ing world as C10 with upstream zones that are slow, silent, or answer with garbage / the wrong question / TC then a dead TCP connection; reply count and fake-clock latency per operation; drain and quiescence after load",
    text="Seeded search biased to failing upstreams, identical/related queries in flight and worker pools small enough to queue and overflow. Every well-formed query must get exactly one reply no later than the query timeout plus 1.5 s (fake time), packets that must be ignored get none, rejected packets at most one; unanswered queries are allowed only up to the count the kernel queue and the engine's drop counters report as shed; after the load the listener must drain and the server report quiescence. Sampling, not proof.",
-   note="Shedding is attributed by count, not per query. The 'small scheduling margin' is taken as 1.5 s. UDP only. Goroutine/limiter leak detection is limited to the listener's drain result and Server.Quiesced."),
+   note="Shedding is attributed by count, not per query. The 'small scheduling margin' is taken as 1.5 s. Owned UDP and TCP listeners; for stream clients count and order are judged. Post-load probes check that healthy zones answer again. Goroutine/limiter leak detection is limited to the listener's drain result and Server.Quiesced."),
 
  "C05": dict(
    level="exploration", design="§3 C05",
@@ -93,7 +93,7 @@ CHECKS = {
    level="exploration", design="§3 C06",
    technique="deterministic simulation: generated query packets (header bits, EDNS shapes, mangled headers) through the real UDP engine (batch and portable readers, inline and replay) and through Server.ServeMsg over UDP-like and TCP-like transports; every reply judged against its own query by the property's rules",
    text="Seeded search over configurations and packet sequences (the C05 generator) plus per-packet mangling (QR set, non-query opcode, QDCOUNT 0/2, ANCOUNT 2, truncated body/header). Rules checked per reply: QR/ID/opcode echo, question echo (exact bytes), no OPT without OPT, no RRSIG/NSEC/NSEC3 without DO (unless RRSIG asked), AD only when negotiated, no reflected client subnet / keepalive over UDP / foreign options, cookie only against a cookie, UDP size limit or minimal TC reply, never answer a response, NOTIMP/FORMERR/BADVERS rejections. Sampling, not proof.",
-   note="Stream listeners (TCP/TLS) and DoH/DoQ are not simulated: header-level rejection is checked on the datagram listener only and 'ID 0 over DoQ' is not checked. Types NSEC/NSEC3 are not asked explicitly. One COOKIE option per query."),
+   note="Owned UDP and TCP listeners are simulated (header-level rejection checked on both); TLS/DoH/DoQ are not and 'ID 0 over DoQ' is not checked. Types NSEC/NSEC3 are not asked explicitly. One COOKIE option per query."),
 
  "C04": dict(
    level="exploration", design="§3 C04",
@@ -105,7 +105,7 @@ CHECKS = {
    level="exploration", design="§3 C03",
    technique="deterministic simulation: a zone that answers every name with data computed from the question (lower-cased wire name, type, CD bit of the upstream query); confusable question families through both ingress paths (UDP engine wire path, Server.ServeMsg decoded path, canonical and \\DDD-escaped text); cache-key hash optionally narrowed to 3-10 bits so that distinct questions collide; purges",
    text="Seeded search over question sequences whose members differ in one respect (letter case, a dot inside a label vs a label boundary, concatenated labels, octets 0x00/0x20/0xff/'*'/'\\\\', names below vs beside a denied name, type, CD), interleaved over the two ingress paths with purges, with full or narrowed cache keys. Every reply must carry the data of its own question: another name's, type's or CD partition's data, or a denial that belongs to another name, is a violation. Sampling, not proof.",
-   note="Key collisions are produced by masking the hash result through an import shim (verifxxhash) in internal/cache/key.go and key_wire.go; collision handling itself is the shipped code. Client-subnet scoping is C19's. The test zone is insecure, so RFC 8020 cuts and denial-proof reuse are not reached here."),
+   note="Key collisions are produced by masking the hash result through an import shim (verifxxhash) in internal/cache/key.go and key_wire.go; collision handling itself is the shipped code. Client-subnet scoping is C19's. Subtree cuts are reached through one recipe (a signed zone that gains a name below a denied one)."),
 }
 
 NOT_APPLICABLE = {
